@@ -39,6 +39,9 @@ PAL_ODD = [
     ({'k': 'verb', 'v': '38;5'}, ['38;5']),
     ({'k': 'verb', 'v': '0'}, ['0']),
     ({'k': 'verb', 'v': '38;5;256'}, ['38;5;256']),
+    ({'k': 'int', 'v': 73}, ['73']),
+    ({'k': 'int', 'v': 56}, ['56']),
+    ({'k': 'str', 'v': '74'}, ['74']),
 ]
 # forms that denote no setting at all
 PAL_EMPTY = [
@@ -66,6 +69,7 @@ class Gen:
     def __init__(self, m, rng, weights, maxlen=8, odd=0.0, more=0.3, anstr=0.15, alpha=None):
         self.m, self.rng, self.w = m, rng, weights
         self.alpha = alpha or ALPHA
+        self.ctrl = 0.0
         # a few favourite forms per history: the same member/name applied again and again (shared objects, equal
         # overlapping settings) is what several defects need
         self.fav = [rng.choice(PAL_CORE + PAL_MORE[:6]) for _ in range(2)]
@@ -79,7 +83,12 @@ class Gen:
 
     def text(self, lo=0):
         n = self.rng.randint(lo, self.maxlen)
-        return ''.join(self.rng.choice(self.alpha) for _ in range(n))
+        t = ''.join(self.rng.choice(self.alpha) for _ in range(n))
+        if self.ctrl and self.rng.random() < self.ctrl:
+            # a non-SGR control sequence kept as text (pieces may end inside it)
+            k = self.rng.randint(0, len(t))
+            t = t[:k] + self.rng.choice(['\x1b[12;40H', '\x1b[2K', '\x1b[5A']) + t[k:]
+        return t
 
     def setting(self):
         x = self.rng.random()
@@ -257,6 +266,65 @@ class Gen:
         self.do({'op': 'apply', 'r': r, 'sets': [{'k': 'aset', 'v': c_}], 'S': [c_], 'start': self.rng.randint(0, j - 1),
                  'end': self.rng.choice([None, n, k]), 'top': True})
 
+    def g_seam_order(self):
+        """Both operands carry the same set of conflicting settings at the seam, stacked in a different order."""
+        if not self.room(4):
+            return
+        pairs = [('31', '34'), ('1', '22'), ('41', '42'), ('31', '1')]
+        x, y = self.rng.choice(pairs)
+        a = self.do({'op': 'new', 'cls': 'S', 'text': self.text(1), 'sets': [{'k': 'aset', 'v': x}, {'k': 'aset', 'v': y}], 'S': [x, y]})['res'][0]
+        order = [y, x] if self.rng.random() < 0.7 else [x, y]
+        b_ = self.do({'op': 'new', 'cls': self.rng.choice('SSA'), 'text': self.text(1), 'sets': [{'k': 'aset', 'v': c} for c in order], 'S': order})['res'][0]
+        op_ = self.rng.choice(['add', 'iadd', 'join'])
+        if op_ == 'join':
+            self.do({'op': 'join', 'cls': 'S', 'items': [a, b_]})
+        else:
+            self.do({'op': op_, 'r': a, 'other': b_})
+
+    def g_bottom_at_begin(self):
+        """topmost=False starting exactly where another setting begins, underneath a conflicting setting that began earlier."""
+        r = self.pick('S')
+        if not r or self.length(r) < 4:
+            return
+        n = self.length(r)
+        x, y = self.rng.choice([('31', '34'), ('34', '31'), ('1', '22'), ('41', '42')])
+        j = self.rng.randint(1, n - 2)
+        self.do({'op': 'apply', 'r': r, 'sets': [{'k': 'aset', 'v': x}], 'S': [x], 'start': 0, 'end': self.rng.choice([None, n]), 'top': True})
+        other = self.rng.choice(['1', '3', '4', '9'])
+        self.do({'op': 'apply', 'r': r, 'sets': [{'k': 'aset', 'v': other}], 'S': [other], 'start': j, 'end': self.rng.randint(j + 1, n), 'top': True})
+        extra = self.rng.choice([[], ['3'], ['53']])
+        S = [y] + extra
+        self.do({'op': 'apply', 'r': r, 'sets': [{'k': 'aset', 'v': c} for c in S], 'S': S, 'start': j, 'end': self.rng.randint(j + 1, n), 'top': False})
+
+    def g_same_form_nested(self):
+        """The same spelling applied on a wide range and again on an inner range, with a conflicting setting in between."""
+        r = self.pick('S')
+        if not r or self.length(r) < 4:
+            return
+        n = self.length(r)
+        f, d = self.rng.choice([c for c in PAL_CORE + PAL_MORE if len(c[1]) == 1])
+        conflicts = {'1': '22', '22': '1', '31': '34', '34': '31', '2': '1', '3': '23', '4': '24', '42': '41', '39': '31', '38;5;214': '31',
+                     '38;2;1;2;3': '34', '48;5;7': '41'}
+        g_ = conflicts.get(d[0], '34')
+        self.do({'op': 'apply', 'r': r, 'sets': [f], 'S': d, 'start': 0, 'end': None, 'top': True})
+        self.do({'op': 'apply', 'r': r, 'sets': [{'k': 'aset', 'v': g_}], 'S': [g_], 'start': self.rng.choice([0, 1]), 'end': self.rng.choice([None, n - 1]), 'top': True})
+        a_ = self.rng.randint(1, n - 2)
+        self.do({'op': 'apply', 'r': r, 'sets': [f], 'S': d, 'start': a_, 'end': self.rng.randint(a_ + 1, n - 1), 'top': True})
+
+    def g_pad_pair(self):
+        """Two different justifications of the same object with the same width and fill."""
+        r = self.pick()
+        if not r or not self.room(4):
+            return
+        n = self.length(r)
+        w = n + self.rng.randint(1, 4)
+        fill = self.rng.choice([None, '*', '0'])
+        for meth in self.rng.sample(['ljust', 'rjust', 'center', 'zfill'], 2):
+            o = {'op': 'pad', 'r': r, 'm': meth, 'width': w}
+            if meth != 'zfill' and fill is not None:
+                o['fill'] = fill
+            self.do(o)
+
     def g_clear(self):
         r = self.pick()
         if r:
@@ -300,7 +368,7 @@ class Gen:
 
     def g_iter(self):
         r = self.pick()
-        if r and self.length(r) <= 5 and self.room(self.length(r) + 1):
+        if r and self.length(r) <= 8 and self.room(self.length(r) + 1):
             self.do({'op': 'iter', 'r': r})
 
     def g_iter_join(self):
@@ -665,6 +733,13 @@ class Gen:
 
     def g_simplify(self):
         r = self.pick()
+        if r and self.rng.random() < 0.3:
+            # explicit settings equal to what this value renders go through the lenient parse first
+            import re as _re
+            q = ''.join(chr(c) for c in self.m.snaps[r]['q'])
+            for body in _re.findall('\x1b\\[([0-9;]+)m', q)[:3]:
+                if not body.startswith(';') and ';;' not in body and not body.endswith(';'):
+                    self.do({'op': 'pgs', 'codes': [int(x) for x in body.split(';')], 'enc': 'str', 'adderr': True})
         if r and self.room(2):
             if self.m.kinds[r] == 'S' and self.rng.random() < 0.5 and self.room(3):
                 e = self.do({'op': 'copy', 'r': r})
@@ -718,14 +793,16 @@ PROFILES = {
                 assign_str=0.5, apply=0.5),
     'C11': dict(nonuniform=2.5, new=0.5, case=1.5, strip=2, rmfix=2, replace=3.5, expandtabs=1, split=3.5, splitlines=1.5,
                 partition=2.5, assign_str=1.5, apply=1.5, remove=0.5, add=0.5),
-    'C12': dict(nonuniform=2, new=1, pad=5, pad_nested=1.5, fmt=5, apply=2, remove=0.5, slice=0.5, add=0.5),
-    'C16': weights(matching=5, apply=3, remove=1, slice=0.5, render=0.2),
-    'C17': weights(find_settings=5, settings_at=2.5, apply=4, remove=2, slice=0.5, add=0.7, iadd=0.7),
-    'C04': weights(slice=5, index=2, clip=2, iter=0.6, apply=3, remove=1.5),
-    'C05': weights(add=4, iadd=4, join=2, split_rejoin=2, slice=2, iter_join=1.0, shared_objects=0.8),
-    'C06': weights(apply=6, remove=1.5, slice=1, restart_leftover=1.5),
+    'C12': dict(nonuniform=2, new=1, pad=5, pad_nested=1.5, pad_pair=1.5, fmt=5, apply=2, remove=0.5, slice=0.5, add=0.5),
+    'C16': weights(matching=6, apply=3, remove=1, slice=0.5, render=0.2, case=1.5, copy=0.3),
+    'C17': weights(find_settings=5, settings_at=2.5, apply=4, remove=2, slice=0.5, add=0.7, iadd=0.7, pad=1.2, assign_str=0.6,
+                   strip=0.5, new_from=0.8),
+    'C04': weights(slice=5, index=2, clip=2, iter=1.5, iter_join=0.6, apply=3, remove=1.5, pad=0.8, assign_str=0.6, strip=0.4),
+    'C05': weights(add=4, iadd=4, join=2, split_rejoin=2, slice=2, iter_join=1.0, shared_objects=0.8, seam_order=1.2),
+    'C06': weights(apply=6, remove=1.5, slice=1, restart_leftover=1.5, bottom_at_begin=1.5, same_form_nested=1.5),
     'C07': weights(remove=4, remove_edge=2.5, apply=5, clear=0.3),
-    'C08': weights(copy=3, add=2.5, iadd=2.5, join=1.5, slice=3, new_from=2),
+    'C08': weights(copy=3, add=2.5, iadd=2.5, join=1.5, slice=3, new_from=2, replace=2, pad=0.7, strip=0.5, split=0.5, fmt=0.7,
+                   matching=0.5, case=0.3),
     'C09': weights(iter_join=1.0, iadd=2.5, replace=1.0, pad=2.0, pad_nested=1.0, remove_edge=0.7, restart_leftover=0.5, shared_objects=0.8, split=0.7, partition=0.5, strip=0.5, rmfix=0.5, case=0.3,
                    assign_str=0.5, query=0.5, matching=0.5, simplify=0.3, expandtabs=0.3, splitlines=0.3),
 }
@@ -815,6 +892,22 @@ def triple_cases(groups=None):
     return cases
 
 
+def stack_cases():
+    """The same setting below and above a conflicting one (x, y, x), with several settings of other groups ending at the same
+    index (so that 'reset and re-emit everything' is what the renderer chooses)."""
+    cases = []
+    for g in ('fg', 'bg', 'bold', 'ul', 'font'):
+        x, y = GROUP_CODES[g][0][0], GROUP_CODES[g][0][-1]
+        others = [GROUP_CODES[k][0][0] for k in ('ital', 'cross', 'over', 'blink') if k != g]
+        for n_other in (0, 1, 2, 3, 4):
+            k = others[:n_other]
+            cases.append([k + [x, y, x], [x, y, x]])
+            cases.append([[x, y, x] + k, [x, y, x]])
+            cases.append([k + [x, y, x], [x, y, x], k + [y, x, y]])
+            cases.append([[x, y] + k, [x, y, x], [x]])
+    return cases
+
+
 def gen_render_family(m, rng, job):
     g = Gen(m, rng, W_BASE)
     cases = job['cases']
@@ -858,6 +951,12 @@ def gen_parse_input(m, rng, job):
     if rng.random() < 0.1:
         parts.append(rng.choice(['\x1b[1', '\x1b[', '\x1b', '\x1b[31;']))
     text = ''.join(parts)
+    if rng.random() < 0.3:
+        # the same code lists first go through the lenient path (explicit settings): parsing text must not depend on that
+        import re as _re
+        for body in _re.findall('\x1b\\[([0-9;]*)m', text)[:2]:
+            if body and not body.startswith(';') and ';;' not in body and not body.endswith(';'):
+                g.do({'op': 'pgs', 'codes': [int(x) for x in body.split(';')], 'enc': 'str', 'adderr': True})
     e = g.do({'op': 'new', 'cls': 'A' if rng.random() < 0.3 else 'S', 'text': text, 'sets': [], 'S': []})
     if e['out'] == 'ok' and rng.random() < 0.5:
         r = e['res'][0]
